@@ -3,7 +3,7 @@ from xv.props import alloc_common as ac
 
 ID = "C12"
 LEVEL = "exploration"
-N_QUICK, N_THOROUGH = 16000, 400000
+N_QUICK, N_THOROUGH = 48000, 400000
 T_QUICK, T_THOROUGH = 60, 1200
 FLOORS = {"histories": 1000, "growths": 200, "frees": 5000, "get_free_checks": 20000,
           "alloc_fit_existed": 5000, "alloc_needed_growth": 200, "frees_into_full_buffer": 100}
